@@ -409,3 +409,126 @@ def oracle_scope_ctx():
     from . import attach
 
     return attach.oracle_scope()
+
+
+# --------------------------------------------------------------------------------------
+# M-eer
+
+
+def tie_free(s):
+    allv = np.concatenate([np.asarray(s.pos, dtype=float), np.asarray(s.neg, dtype=float)])
+    return len(np.unique(allv)) == len(allv)
+
+
+def install_eer(sess):
+    S = lib()
+    install_ctor_snapshot(sess)
+
+    def post(snap, args, kwargs, res):
+        s = args[0]
+        if len(s.pos) == 0 or len(s.neg) == 0 or not finite_arr(s.pos) or not finite_arr(s.neg):
+            sess.skip("M-eer", "empty class or non-finite")
+            return
+        t, e = res
+        t = float(t)
+        e = float(e)
+        fpr = float(s.fpr(t))
+        fnr = float(s.fnr(t))
+        sc, ec = cfg_of(s)
+        tf = tie_free(s)
+        sig = (sc, ec, s.nb_easy_pos > 0, s.nb_easy_neg > 0, "tiefree" if tf else "ties")
+
+        def w():
+            pos, neg = src_lists(s)
+            return {"pos": pos, "neg": neg, "easy": [int(s.nb_easy_pos), int(s.nb_easy_neg)], "cfg": [sc, ec],
+                    "threshold": t, "eer": e, "fpr_at_t": fpr, "fnr_at_t": fnr}
+
+        if e == 0.0:
+            sess.check("M-eer", fpr == 0.0 and fnr == 0.0, "EER of 0 reported at a threshold with errors", w, sig=sig + ("zero",), key="eer-zero")
+        if not tf:
+            sess.skip("M-eer", "ties: crossing clauses not claimed")
+            return
+        sess.check("M-eer", 0.0 <= e <= 1.0, "EER outside [0,1]", w, sig=sig, key="eer-range")
+        sess.check("M-eer", abs(fpr - e) <= 1.0 / s.nb_all_neg + 1e-9, "FPR at the EER threshold is more than one sample from the EER", w, sig=sig, key="eer-fpr")
+        sess.check("M-eer", abs(fnr - e) <= 1.0 / s.nb_all_pos + 1e-9, "FNR at the EER threshold is more than one sample from the EER", w, sig=sig, key="eer-fnr")
+        sess.check("M-eer", e <= min(s.hard_pos_ratio, s.hard_neg_ratio) + 1e-12, "EER exceeds the smaller hard-sample fraction", w, sig=sig, key="eer-cap")
+
+    def on_exc(snap, args, kwargs, exc):
+        s = args[0]
+        if len(s.pos) == 0 or len(s.neg) == 0 or not finite_arr(s.pos) or not finite_arr(s.neg):
+            sess.skip("M-eer", "empty class or non-finite")
+            return
+        pos, neg = src_lists(s)
+        sess.check("M-eer", False, "eer() raised on an in-scope object",
+                   lambda: {"pos": pos, "neg": neg, "easy": [int(s.nb_easy_pos), int(s.nb_easy_neg)], "cfg": list(cfg_of(s)), "exc": repr(exc)},
+                   key="eer-raise")
+
+    sess.wrap(S.Scores, "eer", "M-eer", post, on_exc=on_exc)
+
+
+def close_thr(a, b, span):
+    a = np.asarray(a, dtype=float)
+    b = np.asarray(b, dtype=float)
+    return bool(np.all(np.abs(a - b) <= 8 * np.spacing(np.maximum(np.maximum(np.abs(a), np.abs(b)), 1e-300)) + 1e-9 * span))
+
+
+# --------------------------------------------------------------------------------------
+# M-auc
+
+
+def install_auc(sess, max_pairs=6000):
+    S = lib()
+    install_ctor_snapshot(sess)
+
+    def post(snap, args, kwargs, res):
+        s = args[0]
+        names = ["lower", "upper"]
+        a = {"lower": 0.0, "upper": 1.0, "x_axis": "fpr", "y_axis": "tpr"}
+        a.update(dict(zip(names, args[1:])))
+        a.update(kwargs)
+        lower, upper, xa, ya = float(a["lower"]), float(a["upper"]), a["x_axis"], a["y_axis"]
+        if len(s.pos) == 0 or len(s.neg) == 0 or not finite_arr(s.pos) or not finite_arr(s.neg):
+            sess.skip("M-auc", "empty class or non-finite")
+            return
+        if not (0.0 <= lower <= upper <= 1.0):
+            sess.skip("M-auc", "limits outside 0<=lower<=upper<=1")
+            return
+        if len(s.pos) * len(s.neg) > max_pairs:
+            sess.skip("M-auc", "too large for the exact reference")
+            return
+        pos, neg = np.asarray(s.pos).tolist(), np.asarray(s.neg).tolist()
+        ep, en = int(s.nb_easy_pos), int(s.nb_easy_neg)
+        sc, ec = cfg_of(s)
+        full = lower == 0.0 and upper == 1.0
+        xties = bool(set(pos) & set(neg))
+        combo = (xa, ya)
+        sig = (sc, ec, ep > 0, en > 0, "full" if full else "partial", "xties" if xties else "-", xa, ya)
+        got = float(res)
+
+        def w(expected):
+            return lambda: {"pos": pos, "neg": neg, "easy": [ep, en], "cfg": [sc, ec], "lower": lower, "upper": upper,
+                            "x_axis": xa, "y_axis": ya, "got": got, "expected": expected}
+
+        alias = {"far": "fpr", "tar": "tpr", "frr": "fnr", "trr": "tnr"}
+        combo = (alias.get(xa, xa), alias.get(ya, ya))
+        if full and combo in (("fpr", "tpr"), ("tpr", "fpr"), ("fpr", "fnr"), ("tnr", "tpr")):
+            mw = float(R.mann_whitney(pos, neg, ep, en, sc))
+            exp = {("fpr", "tpr"): mw, ("tpr", "fpr"): 1.0 - mw, ("fpr", "fnr"): 1.0 - mw, ("tnr", "tpr"): mw}[combo]
+            sess.check("M-auc", abs(got - exp) <= 1e-9, "full AUC differs from the Mann-Whitney statistic", w(exp), sig=sig, key="auc-full")
+            return
+        if xties:
+            sess.skip("M-auc", "partial AUC with cross-class ties not claimed")
+            return
+        if combo == ("fpr", "tpr"):
+            exp = float(R.step_area(pos, neg, ep, en, sc, lower, upper))
+        elif combo == ("fpr", "fnr"):
+            exp = (upper - lower) - float(R.step_area(pos, neg, ep, en, sc, lower, upper))
+        elif combo == ("tnr", "tpr"):
+            exp = float(R.step_area(pos, neg, ep, en, sc, 1.0 - upper, 1.0 - lower))
+        else:
+            sess.skip("M-auc", "axis combination without a reference")
+            return
+        sess.check("M-auc", abs(got - exp) <= 1e-9, "partial AUC differs from the exact step-ROC area", w(exp), sig=sig, key="auc-partial")
+        sess.check("M-auc", got <= (upper - lower) + 1e-9, "partial AUC exceeds upper-lower", w(upper - lower), sig=sig, key="auc-bound")
+
+    sess.wrap(S.Scores, "auc", "M-auc", post)
